@@ -605,6 +605,109 @@ def run_attr_correspondence(ck, q):
     return mism
 
 
+def _cmp_aproto(mp, p):
+    """model AProto (driver JSON) vs decoded real AttributeProto, every value field"""
+    if mp["type"] != p["type"] or mp["name"] != p["name"]:
+        return f"type/name: model {mp['type']}/{mp['name']} real {p['type']}/{p['name']}"
+    if mp["i"] != p["i"]:
+        return f"i: model {mp['i']} real {p['i']}"
+    if not same_words("float32", [mp["f"]], [p["f"]]) or not same_words("float32", mp["floats"], p["floats"]):
+        return f"f/floats: model {mp['f']:#x} {mp['floats']} real {p['f']:#x} {p['floats']}"
+    if mp["s"] != list(p["s"]) or mp["ints"] != p["ints"] or mp["strings"] != [list(x) for x in p["strings"]]:
+        return f"s/ints/strings: model {mp['s']} {mp['ints']} {mp['strings']} real {list(p['s'])} {p['ints']} {p['strings']}"
+    keys = ("data_type", "dims", "int32_data", "int64_data", "uint64_data", "float_data", "double_data", "string_data")
+    rts = ([W.tensor_typed(p["t"])] if p["t"] is not None else []) + [W.tensor_typed(t) for t in p["tensors"]]
+    mts = ([mp["t"]] if mp["t"] is not None else []) + list(mp["tensors"])
+    if len(rts) != len(mts) or any(a[k] != b[k] for a, b in zip(mts, rts) for k in keys):
+        return f"tensors: model {str(mts)[:120]} real {str(rts)[:120]}"
+    return None
+
+
+def run_ref_correspondence(ck, q):
+    """tie H for Model/AttrRef.lean: chains of `AttrX(_Ref(prev, outer, rname), name)` over a concrete root - outcome
+    class, `_to_onnx()` of the reference (name, ref_attr_name, type), `.value` (the root's stored object), `deref()`."""
+    import spox._attributes as A
+
+    from translator.c10_tables import CLASSES
+
+    rng = ck.rng
+    vals = value_universe(rng, ck.pick(10, 400))
+    names = [c for c in CLASSES if hasattr(A, c) and c != "AttrGraph"]
+    reqs, real = [], []
+    for rcn in names:
+        for j, v in vals:
+            for _ in range(ck.pick(1, 3)):
+                chain = []
+                for k in range(rng.randrange(1, 4)):
+                    c = rcn if rng.random() < 0.75 else rng.choice(names)
+                    chain.append({"cls": c, "name": f"n{k}", "outer": f"o{k}", "rname": f"r{k}"})
+                reqs.append({"op": "ref", "q": q, "root": {"cls": rcn, "name": "root", "val": j}, "chain": chain})
+                real.append((rcn, j, v, chain))
+    outs = ck.driver().ask_many("C10", reqs)
+    mism = n = 0
+    for (rcn, j, v, chain), m in zip(real, outs):
+        if "error" in m:
+            mism += 1
+            ck.broken("correspondence", "C10 _Ref model (driver error)", f"{rcn} {j}: {m}")
+            continue
+        if m.get("in_domain") is False:
+            continue
+        n += 1
+        bad = None
+        try:
+            root = getattr(A, rcn)(copy.copy(v) if isinstance(v, list) else v, "root")
+            rerr = None
+        except Exception as e:  # noqa: BLE001
+            rerr = type(e).__name__
+        if rerr is not None:
+            if m.get("root_err") != rerr:
+                bad = f"root: real raises {rerr}, model {m}"
+        elif "root_err" in m:
+            bad = f"root: real accepts, model raises {m['root_err']}"
+        else:
+            cur, err = root, None
+            for i, c in enumerate(chain):
+                try:
+                    cur = getattr(A, c["cls"])(A._Ref(cur, c["outer"], c["rname"]), c["name"])
+                except Exception as e:  # noqa: BLE001
+                    err = (i, type(e).__name__)
+                    break
+            ck.count(("ref", rcn, j["k"], len(chain), err is None))
+            if err is not None:
+                if (m.get("at"), m.get("err")) != err:
+                    bad = f"real raises {err[1]} at link {err[0]}, model {m}"
+            elif "err" in m:
+                bad = f"real accepts the chain, model raises {m['err']} at {m['at']}"
+            else:
+                p = cur._to_onnx()
+                if (p.name, p.ref_attr_name, p.type) != (m["name"], m["ref"], m["type"]) or p.ByteSize() != len(
+                        type(p)(name=p.name, ref_attr_name=p.ref_attr_name, type=p.type).SerializeToString()):
+                    bad = f"reference proto: real ({p.name!r}, {p.ref_attr_name!r}, {p.type}), model ({m['name']!r}, {m['ref']!r}, {m['type']})"
+                elif cur.value is not root._value:
+                    bad = "value of the chain is not the root's stored object"
+                else:
+                    try:
+                        dp = W.attribute(cur.deref()._to_onnx().SerializeToString())
+                        derr = None
+                    except Exception as e:  # noqa: BLE001
+                        derr = type(e).__name__
+                    md = m["deref"]
+                    if derr is not None:
+                        if md.get("err") != derr:
+                            bad = f"deref: real raises {derr}, model {str(md)[:80]}"
+                    elif "ok" not in md:
+                        bad = f"deref: real accepts, model raises {md.get('err')}"
+                    else:
+                        bad = _cmp_aproto(md["ok"], dp)
+                        bad = bad and "deref: " + bad
+        if bad:
+            mism += 1
+            if mism <= 3:
+                ck.broken("correspondence", "C10 _Ref model vs real attribute references", f"{rcn}({str(v)[:50]!r}) chain {[c['cls'] for c in chain]}: {bad}")
+    ck.cov["ref_correspondence"] = {"cases": n, "mismatches": mism}
+    return mism
+
+
 # ------------------------------------------------------- tie H (2b): float rounding on the attribute path
 def boundary_doubles(rng, n_random):
     """binary64 patterns around everything that matters for (float)double."""
@@ -2251,6 +2354,7 @@ def run(ck: core.Check):
     q = platform_quietens()
     for facet, fn in (("fromArray/toArray", lambda: run_enc_correspondence(ck, q)),
                       ("Attr constructors", lambda: run_attr_correspondence(ck, q)),
+                      ("attribute references", lambda: run_ref_correspondence(ck, q)),
                       ("float rounding", lambda: run_float_correspondence(ck)),
                       ("const/initializer/constant", lambda: run_embed_correspondence(ck, q)),
                       ("capture", lambda: run_capture_correspondence(ck, info) if info else None)):
